@@ -512,6 +512,27 @@ theorem rbFold_spec (d : Decl) : ∀ (todo : List Row) (acc : EG × List Row), a
           · rfl
       · exact i6 y hy
 
+theorem insertInto_tables_size (d : Decl) (rows : List Row) (g : EG) (r : Row) :
+    (insertInto g d rows r).1.tables.size = g.tables.size := by
+  induction rows with
+  | nil => simp [insertInto]
+  | cons x xs ih =>
+    simp only [insertInto]
+    split
+    · rw [(mergeRows_tables g d x r).1]
+    · exact ih
+
+theorem insertRow_tables_size (g : EG) (f : Nat) (r : Row) : (g.insertRow f r).tables.size = g.tables.size := by
+  show (EG.setTable _ f _).tables.size = _
+  rw [setTable_size, insertInto_tables_size]
+
+theorem lookupOrCreate_tables_size (g : EG) (f : Nat) (args : List Int) :
+    (g.lookupOrCreate f args).1.tables.size = g.tables.size := by
+  unfold EG.lookupOrCreate
+  cases lookupRow (g.table f) args with
+  | some r => rfl
+  | none => simp only; rw [insertRow_tables_size]; rfl
+
 /-! ### one row per key -/
 
 def UniqueKeys (rows : List Row) : Prop := rows.Pairwise (fun a b => a.args ≠ b.args)
